@@ -48,6 +48,15 @@ def defaults_sweep(ctx):
                 if sec == "epoch":
                     d2["demes"][0]["defaults"] = {"epoch": {k: v}}
                     docs.append((d2, f"defaults_sweep:deme.epoch.{k}"))
+                    # the top-level default shadowed in EVERY deme by a valid deme-level default for the same field
+                    # (it is then used by nothing, and is still subject to validation)
+                    valid = {"end_time": 0, "start_size": 100, "end_size": 100, "selfing_rate": 0, "cloning_rate": 0, "size_function": "constant"}
+                    if k in valid:
+                        d3 = copy.deepcopy(base)
+                        d3["defaults"] = {"epoch": {k: v}}
+                        for dm in d3["demes"]:
+                            dm["defaults"] = {"epoch": {k: valid[k]}}
+                        docs.append((d3, f"defaults_sweep:epoch.{k} (shadowed by deme-level defaults)"))
     reps = model_resolve(ctx, [d for d, _ in docs])
     for (d, t), rep in zip(docs, reps):
         code = impl.resolve(d)
@@ -137,9 +146,71 @@ def spec_defaults_ok(doc):
     return True
 
 
+def _ident_ranges(pred):
+    out, lo = [], None
+    for c in range(128, 0x110000):
+        ok = not (0xD800 <= c <= 0xDFFF) and pred(chr(c))
+        if ok and lo is None:
+            lo = c
+        if not ok and lo is not None:
+            out.append((lo, c - 1)); lo = None
+    return out
+
+
+def identifier_stream(ctx):
+    """deme names beyond ASCII: the Model's `isIdentifier` (ASCII rule + the interpreter's XID_Start / XID_Continue
+    range tables, proved equal to the regenerated ones in Theorems/TablesIdent.lean) against `str.isidentifier` of the
+    interpreter that runs the library, code point by code point (every scalar value in the thorough tier; in the quick
+    tier everything below U+3100, the two neighbours of every range boundary, and a random sample), on random short
+    strings, and through Graph.fromdict on one-deme documents carrying the name"""
+    rng = ctx.rng
+    if ctx.tier == "quick":
+        cps = set(range(0, 0x3100))
+        for tab in (_ident_ranges(lambda ch: ch.isidentifier()), _ident_ranges(lambda ch: ("a" + ch).isidentifier())):
+            for lo, hi in tab:
+                cps.update((lo - 1, lo, hi, hi + 1))
+        cps.update(rng.randrange(0x110000) for _ in range(20000))
+    else:
+        cps = set(range(0x110000))
+        ctx.exhaustive = True
+    cps = sorted(c for c in cps if 0 <= c < 0x110000 and not 0xD800 <= c <= 0xDFFF and c != 0)
+    pool = [c for c in cps if c < 0x3100] + [0x2118, 0x212E, 0x309B, 0xFF10, 0xFF3F, 0x10000, 0x1F600, 0xE0100, 0x1D7CE, 0x16FE4]
+    names = [chr(c) for c in cps] + ["a" + chr(c) for c in cps]
+    names += ["".join(chr(rng.choice(pool)) for _ in range(rng.randint(1, 4))) for _ in range(20000 if ctx.tier == "quick" else 200000)]
+    names += ["", "_", "__", "a", "1", "a1", "1a", "for", "None", "a b", "a-b", "π", "Δx", "名前", "a\u0301", "\u0301a", "x٣", "٣x", "a·b", "·", "a²", "℘", "a\u00a0b", "😀", "a😀"]
+    CH = 50000
+    bad = 0
+    for i in range(0, len(names), CH):
+        chunk = names[i:i + CH]
+        rep = ctx.driver.batch([{"op": "is_identifier", "names": chunk}])[0]
+        got = rep.get("ok")
+        if not isinstance(got, list) or len(got) != len(chunk):
+            ctx.disagreement("is_identifier", {"names": chunk[:3]}, "a list of booleans", rep)
+            return
+        for nm, g in zip(chunk, got):
+            ctx.compared += 1
+            if g != nm.isidentifier():
+                bad += 1
+                if bad <= 5:
+                    ctx.disagreement("is_identifier", {"name": nm, "code_points": [hex(ord(ch)) for ch in nm]}, nm.isidentifier(), g)
+    ctx.count("identifier classes: %d strings" % len(names), True, tags=["op:identifier_classes"])
+    # the rule itself on the real resolver: a one-deme document is resolved iff its name is an identifier
+    sample = [n for n in names[-25:]] + rng.sample(names, 150)
+    docs = [{"time_units": "generations", "demes": [{"name": nm, "epochs": [{"start_size": 1}]}]} for nm in sample]
+    reps = model_resolve(ctx, docs)
+    for nm, d, rep in zip(sample, docs, reps):
+        code = impl.resolve(d)
+        ctx.count(show(canon_doc(d)), True, tags=["op:identifier_name", "accepted" if code[0] == "ok" else "rejected:" + code[1]])
+        compare_with_model(ctx, d, code, rep)
+        if (code[0] == "ok") != nm.isidentifier():
+            ctx.violation("a deme name that is " + ("not " if code[0] == "ok" else "") + "a valid Python identifier is " + ("accepted" if code[0] == "ok" else "rejected"),
+                          {"document": show(canon_doc(d))}, python=py_repro(d, "g"))
+
+
 def run(ctx):
     n = 400 if ctx.tier == "quick" else 5000
     defaults_sweep(ctx)
+    identifier_stream(ctx)
     done = 0
     while done < n and ctx.time_left() > 10:
         models = gen_models(ctx, min(100, n - done), max_demes=5 if ctx.tier == "quick" else 8)
@@ -171,6 +242,9 @@ def run(ctx):
             except Exception:  # noqa: BLE001
                 res = {"dict": impl.resolve(d)}
             code = res["dict"]
+            if t != "parent" and isinstance(base, dict) and isinstance(d, dict) and ctx.rng.random() < 0.4:
+                # the same document reached by editing Builder.data in place after a successful resolve() of its parent
+                res["builder_edit_after_resolve"] = builder_edit_route(base, d)
             ctx.count(show(canon_doc(d)), t != "parent", tags=[("op:" + t.split("+")[0].split(":")[0]), "accepted" if code[0] == "ok" else "rejected:" + code[1]])
             compare_with_model(ctx, d, code, rep)
             if code[0] == "err" and code[1] == "AssertionError" and json_safe(d) and accepted_without_assertions(d):
